@@ -2766,7 +2766,228 @@ RULE = ("S1: exhaustive sigma-shapes (18 descriptors per input: none, number, va
         "reductions), where the other routes still run. S8: Stack / Cat / n-ary Contraction with a repeated identical part (6 layouts) and a sibling 1-3 levels "
         "deeper, at/below the root, x 8 sigma maps (numbers, swap, diagonal, expressions, partial, with int keys), built under "
         "lazy/reflect/eager, both reinterpreters, vs Lean denote. S3: exhaustive boxes for Slice-into-Slice, Cat/Stack "
-        "with Slice/Number. Non-trivial = at least one non-number value; distinct by full content.")
+        "with Slice/Number. S9 (call sugar f(*args, **kwargs)): the S1 sigma-shapes (exhaustive descriptor products for 1-2 inputs, sampled for 3) "
+        "spelled as p leading positional values + keywords for every p >= 1, in each of 4 modes (mixed; keyword overriding a positional slot with a decoy positional; "
+        "foreign keywords naming free variables of positional values; surplus positionals), f = Tensor / t*sum(t) with a bound name that is also "
+        "a key / lazy t+u built under eager/lazy/reflect, called under eager/lazy/reflect (then reinterpreted; under reflect the keys of the ONE "
+        "Subs node are read off), vs the numpy function-application table of the merged map and Lean denote(subs). "
+        "Non-trivial = at least one non-number value; distinct by full content.")
+
+
+# ------------------------------------------------------------------------------------------------
+# S9: the call sugar f(*args, **kwargs)   (Funsor.__call__, terms.py:352-361)
+#     positional values bind the LEADING inputs of f (in f.inputs order), keywords bind by name, a keyword on a
+#     positionally bound slot wins, surplus positionals and keywords that are not inputs of f are ignored — and the
+#     merged map is ONE simultaneous substitution: a keyword key must not capture a free name of a positional value
+#     (f(j, j=2) is j -> f[j, 2]; f('j', j='i') is the transpose), nor may a foreign keyword (f('a', a=1)).
+#     Oracle = the numpy function-application table of the merged sigma (s1_oracle) and Lean `denote (subs f sigma)`.
+# ------------------------------------------------------------------------------------------------
+
+S9_MODES = ["mixed", "override", "foreign", "surplus"]
+
+
+def s9_cases(rng, tier):
+    """(own_sizes, ev_shape, desc, p, mode): exhaustive descriptor products x every positional prefix length p x every mode
+    for n <= 2, sampled for n = 3."""
+    thorough = tier == "thorough"
+    pats = [(2,), (3,), (2, 2), (3, 3)] + ([(2, 3), (3, 2), (1, 2), (1, 1)] if thorough else [rng.choice([(2, 3), (3, 2), (1, 2)])])
+    for sizes in pats:
+        own = POOL[:len(sizes)]
+        for desc in itertools.product(*[s1_descriptors(k, own) for k in own]):
+            for p in range(1, len(sizes) + 1):
+                for mode in S9_MODES:
+                    yield list(zip(own, sizes)), ((2,) if rng.random() < 0.15 else ()), desc, p, mode
+    for sizes in [(2, 2, 2), (3, 3, 3)] + ([(2, 3, 2), (3, 2, 2)] if thorough else []):
+        own = POOL[:3]
+        ds = [s1_descriptors(k, own) for k in own]
+        for _ in range(8000 if thorough else 1500):
+            yield list(zip(own, sizes)), (), tuple(rng.choice(d) for d in ds), rng.randrange(1, 4), rng.choice(S9_MODES)
+
+
+def s9_python(build, args_py, kw_py, call_interp, ins, oracle):
+    body = f"f({', '.join(args_py + ['**{' + ', '.join(kw_py) + '}'])})"
+    if call_interp == "eager":
+        call = f"CALL = lambda: {body}\n"
+    else:
+        call = f"def CALL():\n    with {call_interp}:\n        s = {body}\n    print(s)\n    with eager:\n        return reinterpret(s)\n"
+    return PY_HEADER + build + call + py_footer(ins, oracle)
+
+
+def run_s9(ctx, use_lean=True):
+    rng = ctx.rng
+    reqs, meta = [], []
+    creqs, cmeta = [], []
+    n_cases = 0
+    for own_sizes, ev_shape, desc, p, mode in s9_cases(rng, ctx.tier):
+        n = len(own_sizes)
+        sizes = dict(own_sizes)
+        own = [k for k, _ in own_sizes]
+        # ---- how the pairs are spelled in the call: p = number of positional arguments bound to inputs
+        # positional slots must carry a value: an unsubstituted leading input is passed as its own name (identity)
+        desc = tuple(("var", k) if i < p and d[0] == "none" else d for i, (k, d) in enumerate(zip(own, desc)))
+        if all(d[0] == "none" for d in desc):
+            continue
+        sigma = s1_instantiate(rng, own_sizes, desc)
+        sig_ins = [(k, sval_inputs(v)) for k, v in sigma]
+        exp = expected_inputs(own_sizes, sig_ins)
+        if exp is None:
+            ctx.count("S9:ill-typed-sizes")
+            continue
+        ins = sorted(exp.items())
+        shape = tuple(s for _, s in own_sizes) + ev_shape
+        data = np.array([rng.choice([-2, -1, 0, 1, 2, 3, 4, 5, 6, 7]) for _ in range(int(np.prod(shape)))],
+                        dtype=np.float64).reshape(shape)
+        sig = dict(sigma)
+        args = [sig[k] for k in own[:p]]
+        kwargs = [(k, sig[k]) for k in own[p:] if k in sig]
+        if mode == "override":
+            # some positional slots are ALSO given by keyword (the keyword is the effective value); the positional
+            # value becomes a decoy drawn from the same descriptor space
+            for i in range(p):
+                if rng.random() < 0.6:
+                    k = own[i]
+                    decoy = s1_instantiate(rng, [own_sizes[i]], [rng.choice([d for d in s1_descriptors(k, own) if d[0] != "none"])])[0][1]
+                    if expected_inputs(own_sizes, sig_ins + [(k, sval_inputs(decoy))]) is None:
+                        continue                       # keep the decoy well-typed too
+                    kwargs.append((k, sig[k]))
+                    args[i] = decoy
+            rng.shuffle(kwargs)
+        elif mode == "foreign":
+            # keywords that are not inputs of f (ignored), preferably names the positional values mention
+            free = [nm for k in own[:p] for nm, _ in sval_inputs(sig[k]) if nm not in sizes]
+            cand = sorted(set(free)) or [x for x in POOL if x not in sizes]
+            for nm in cand[:2]:
+                sz = dict(ins).get(nm, 2)
+                kwargs.append((nm, ("num", rng.randrange(max(sz, 1))) if rng.random() < 0.6 else ("var", rng.choice(POOL), sz)))
+        elif mode == "surplus":
+            args = args + [("num", 0)] * rng.randrange(1, 3) if p == n else args
+        oracle = s1_oracle(data, own_sizes, ev_shape, sigma, ins)
+        if oracle is None:
+            ctx.count("S9:ill-typed-range")
+            continue
+        # does a keyword key occur free in a positional value?  (the region a sequential implementation gets wrong)
+        pos_free = set(nm for v in args for nm, _ in sval_inputs(v))
+        coincide = bool(pos_free & set(k for k, _ in kwargs))
+        # ---- the function
+        vchoice = rng.random()
+        variant = "tensor" if vchoice < 0.6 or ev_shape else ("red" if vchoice < 0.8 and n >= 2 else ("lazybin" if n >= 2 else "tensor"))
+        build_interp = "eager" if variant == "tensor" else rng.choice(["eager", "lazy", "reflect"]) if variant == "red" else rng.choice(["lazy", "reflect"])
+        call_interp = rng.choice(["eager", "eager", "lazy", "reflect"])
+        t_py = (f"Tensor(np.array({{d}}, dtype=np.float64), OrderedDict([" + ", ".join(f"({nm!r}, Bint[{s}])" for nm, s in own_sizes) + "]))")
+        t = Tensor(data, OrderedDict((nm, Bint[s]) for nm, s in own_sizes))
+        if variant == "tensor":
+            f, the_data = t, data
+            build = "f = " + t_py.format(d=data.tolist()) + "\n"
+        elif variant == "red":
+            # a bound name that is also a substituted key / a free name of a value:  t * sum_{last} t
+            with INTERPS[build_interp]:
+                f = t * t.reduce(ops.add, own[-1])
+            the_data = data * data.sum(axis=n - 1, keepdims=True)
+            build = "t = " + t_py.format(d=data.tolist()) + f"\nwith {build_interp}:\n    f = t * t.reduce(ops.add, {own[-1]!r})\n"
+        else:
+            d2 = np.array([rng.choice([0, 10, 20, 30]) for _ in range(sizes[own[-1]])], dtype=np.float64)
+            u = Tensor(d2, OrderedDict([(own[-1], Bint[sizes[own[-1]]])]))
+            with INTERPS[build_interp]:
+                f = t + u
+            the_data = data + d2
+            build = ("t = " + t_py.format(d=data.tolist()) + f"\nu = Tensor(np.array({d2.tolist()}, dtype=np.float64), "
+                     f"OrderedDict([({own[-1]!r}, Bint[{sizes[own[-1]]}])]))\nwith {build_interp}:\n    f = t + u\n")
+        if list(f.inputs) != own:
+            ctx.count("S9:input-order-differs")      # positional binding follows f.inputs: only the declared order is generated
+            continue
+        the_oracle = oracle if variant == "tensor" else s1_oracle(the_data, own_sizes, (), sigma, ins)
+        n_cases += 1
+        tsize = lambda k: sizes.get(k, dict(ins).get(k, 2))
+        a_vals = [sval_funsor_typed(v, sizes[own[i]] if i < n else 1) for i, v in enumerate(args)]
+        k_vals = {k: sval_funsor_typed(v, tsize(k)) for k, v in kwargs}
+        args_py = [sval_python(v, sizes[own[i]] if i < n else 1) for i, v in enumerate(args)]
+        kw_py = [f"{k!r}: {sval_python(v, tsize(k))}" for k, v in kwargs]
+        py = s9_python(build, args_py, kw_py, call_interp, ins, the_oracle)
+        wit = {"stream": "S9", "variant": variant, "built_under": build_interp, "called_under": call_interp, "mode": mode,
+               "inputs": own_sizes, "event_shape": list(ev_shape), "data": data.tolist(),
+               "args": [describe_sval(v) for v in args], "kwargs": [(k, describe_sval(v)) for k, v in kwargs],
+               "effective_sigma": [(k, describe_sval(v)) for k, v in sigma], "keyword_key_free_in_positional": coincide}
+        label = f"S9:{variant}:{mode}:{'coincide' if coincide else 'disjoint'}"
+        try:
+            with INTERPS[call_interp]:
+                r = f(*a_vals, **k_vals)
+            if call_interp == "reflect" and isinstance(r, Subs):
+                # what was substituted, read off the reflected node: exactly the effective pairs, at once
+                got_keys = sorted(k.split("__BOUND_")[0] for k in r.subs)      # the keys of a reflected Subs are alpha-renamed
+                # (fidelity, counted only: a different but equivalent nesting is not a violation of the statement;
+                #  the value and inputs gates below decide)
+                if use_lean:
+                    # the Lean model of Funsor.__call__ (`callPairs`, Props/C04/Call.lean) on tokens, against the ordered pairs
+                    # of the reflected node (values are cons-hashed: compared by identity after to_funsor)
+                    toks = {f"a{i}": (v, None) for i, v in enumerate(a_vals)}
+                    toks.update({f"k:{k}": (v, k) for k, v in k_vals.items()})
+                    creqs.append("C04 callpairs " + sx([Q(k) for k in f.inputs]) + " " + sx([Q(f"a{i}") for i in range(len(a_vals))]) +
+                                 " " + sx([[Q(k), Q(f"k:{k}")] for k in k_vals]))
+                    cmeta.append((toks, dict(f.inputs), [(k.split("__BOUND_")[0], v) for k, v in r.subs.items()], not isinstance(r.arg, Subs)))
+                if got_keys != sorted(sig) or isinstance(r.arg, Subs):
+                    ctx.count("S9:reflected-pairs-differ")
+                else:
+                    ctx.count("S9:reflected-pairs-ok")
+            if call_interp != "eager" or not isinstance(r, (Tensor, Number)):
+                # lazily built: the inputs clause is exact
+                if call_interp != "eager" and set(r.inputs) != set(exp):
+                    ctx.fail("input", "C04.S9.inputs-lazy", witness=wit, expected=f"inputs = {dict(exp)}",
+                             got=str({k: str(v) for k, v in r.inputs.items()}), python=py)
+                    continue
+                with eager:
+                    r = reinterpret(r)
+        except DECLINE as e:
+            ctx.count(f"S9:declined:{type(e).__name__}")
+            ctx.case()
+            continue
+        bad_in = [nm for nm, d in r.inputs.items() if nm not in exp or exp[nm] != d.size]
+        if bad_in:
+            ctx.fail("input", "C04.S9.inputs", witness=wit, expected=f"inputs ⊆ {dict(exp)}",
+                     got=str({k: str(v) for k, v in r.inputs.items()}), python=py)
+            continue
+        if not isinstance(r, (Tensor, Number)):
+            ctx.count("S9:lazy-result")
+            ctx.case()
+            continue
+        try:
+            impl = table_of(r, ins)
+        except (KeyError, ValueError) as e:
+            ctx.fail("input", "C04.S9.inputs", witness=wit, expected=f"inputs ⊆ {dict(exp)}", got=str(e), python=py)
+            continue
+        if not same_table(impl, the_oracle):
+            ctx.fail("input", "C04.S9.value", witness=wit, expected={"inputs": ins, "table": the_oracle.tolist()},
+                     got={"inputs": [(k, v.size) for k, v in r.inputs.items()], "table": impl.tolist()}, python=py)
+            continue
+        ctx.count(label)
+        ctx.count(f"S9:called-under:{call_interp}")
+        ctx.case(sample=wit if n_cases % 1499 == 0 else None,
+                 nontrivial_key=("S9", variant, mode, p, tuple(own_sizes), desc, coincide) if (kwargs or p > 1 or args[0][0] != "num") else None)
+        if use_lean and variant == "tensor" and (coincide or n_cases % 5 == 0):
+            term = ["subs", ["tensor", [[Q(nm), s] for nm, s in own_sizes], ["real"] + list(ev_shape), [float(x) for x in data.reshape(-1)]],
+                    [[Q(k), sval_term_wire(v, sizes[k])] for k, v in sigma]]
+            reqs.append(f"C04 denote {sx(term)} {sx(ser.ins_wire(ins))} ()")
+            meta.append((wit, impl, py))
+    from funsor.terms import to_funsor
+    for (toks, f_ins, pairs, direct), ans in zip(cmeta, ctx.driver.ask(creqs) if creqs else []):
+        if not ans.startswith("ok "):
+            ctx.infra_errors.append(f"driver: {ans} (callpairs)")
+            continue
+        model = [(str(k), str(t)) for k, t in parse_sx(ans[3:])]
+        same = direct and len(model) == len(pairs) and all(
+            mk == ik and to_funsor(toks[mt][0], f_ins[mk]) is iv for (mk, mt), (ik, iv) in zip(model, pairs))
+        ctx.count("S9:model-callpairs-identical" if same else "S9:model-callpairs-differs")   # fidelity of the model of __call__
+    if not reqs:
+        return
+    for (wit, impl, py), ans in zip(meta, ctx.driver.ask(reqs)):
+        tab = ser.parse_table(ans)
+        if tab is None or any(c is None for c in tab):
+            ctx.fail("correspondence", "C04.S9.lean-denote-undefined", witness=wit, expected="defined table", got=ans[:300])
+            continue
+        flat = [x for _, vals in tab for x in vals]
+        if flat != [futil.exact(x) for x in impl.reshape(-1)]:
+            ctx.fail("input", "C04.S9.value-vs-lean-denote", witness=wit, expected=str(flat)[:400], got=str(impl.tolist())[:400], python=py)
+        else:
+            ctx.count("S9:lean-denote-agrees")
 
 
 FRESH_COVERED = {"Variable": "S2 (substitute var case)", "Tensor": "S1/S2", "Slice": "S2/S3", "Stack": "S2/S3/S4/S8", "Cat": "S2/S3/S4/S8",
@@ -2817,6 +3038,7 @@ def correspond(ctx):
     run_s6(ctx)
     run_s7(ctx)
     run_s8(ctx)
+    run_s9(ctx)
     ctx.extra["beyond_model_spec_only"] = ("stream S5 (Gaussian/Delta substitution) is compared with the explicit formula "
                                            "-1/2||xP-w||^2 / point-mass in numpy only: exploration, not tied to a Lean model")
     ctx.assumptions.append("a Tensor has only scalar Bint inputs (Tensor.__init__ asserts `d.dtype == size` per input, tensor.py:143-144; "
@@ -2843,6 +3065,9 @@ def search(ctx, broken):
     """Python-side oracles only (works without Lean): S1 against numpy, S3 against python slicing at higher
     volume; S2 against a pointwise oracle (number substitution only)."""
     run_rewritten(ctx)
+    run_s9(ctx, use_lean=False)
+    if any(f.witness is not None for f in ctx.failures):
+        return
     run_s5(ctx, 2000, use_lean=False)
     if any(f.witness is not None for f in ctx.failures):
         return
